@@ -11,6 +11,7 @@
 -/
 import Desync.Proofs.HttpRetryProofs
 import Desync.Proofs.ProtocolProofs
+import Desync.Proofs.ProtoSessionProofs
 
 namespace Desync.C14
 open Desync Desync.Http
@@ -81,6 +82,141 @@ theorem missing_vs_chunk (id data : Bytes) (flags : UInt64) (hid : id.length = 3
 theorem serve_all_answered (reqs : List (Bytes × StoreAns)) (h : ∀ p ∈ reqs, p.2 ≠ .failure) :
     (serveRequests reqs).2 = true ∧ (serveRequests reqs).1.length = reqs.length :=
   ⟨(Desync.serve_all_answered reqs h).1, (Desync.serve_all_answered reqs h).2.1⟩
+
+/-! ### a whole casync protocol session over byte streams (`Model/ProtoSession.lean`)
+
+  `PS.serverRun` is `ProtocolServer.Serve` on arbitrary input bytes, `PS.clientRun` is `StartProtocol` +
+  `RequestChunk`s + `Close` on arbitrary bytes from the server side, `PS.session` connects the two:
+  the server reads what the client writes, the client reads what the server writes. -/
+
+/-- **a session is faithful**: for every list of requested ids (32 bytes each), every store and every
+    length, the `k`-th client result is — as long as the store has answered every earlier request,
+    where "missing" is an answer — `missing` when the store reports the chunk missing, a chunk
+    delivering the store's bytes when those hash to the id (whatever the upstream chunk object looks
+    like: compressed or not, verified or not), `ChunkInvalid` when they do not; and an error — never
+    `missing`, never data — from the first store failure on.  `missing` is reported exactly when the
+    store says so; missing answers do not end the session. -/
+theorem session_faithful (E : PS.Env) (hz : PS.ZstdOk E) (ids : List Bytes) (hid : ∀ id ∈ ids, id.length = 32) :
+    (PS.session E ids).client.results.length = ids.length ∧
+    ∀ (k : Nat) (id : Bytes), ids[k]? = some id →
+      (PS.ServedBefore E ids k →
+        (E.store id = .missing → (PS.session E ids).client.results[k]? = some .missing) ∧
+        (∀ c b, E.store id = .chunk c → (c.getData E.z.dec).1 = some b → E.H b = id →
+          ∃ c', (PS.session E ids).client.results[k]? = some (.ok c') ∧ C03.delivers E.z.dec c' b) ∧
+        (∀ c b, E.store id = .chunk c → (c.getData E.z.dec).1 = some b → E.H b ≠ id →
+          (PS.session E ids).client.results[k]? = some (.fail .invalid))) ∧
+      ((¬ PS.ServedBefore E ids k ∨ PS.StoreFails E id) →
+        (PS.session E ids).client.results[k]? = some (.fail (.read .eof))) ∧
+      ((PS.session E ids).client.results[k]? = some .missing ↔ PS.ServedBefore E ids k ∧ E.store id = .missing) :=
+  PS.session_faithful E hz ids hid
+
+/-- what "the store fails" means in `session_faithful`: `GetChunk` returns an error that is not
+    `ChunkMissing`, or a chunk object whose data cannot be produced -/
+theorem store_fails_iff (E : PS.Env) (id : Bytes) :
+    PS.StoreFails E id ↔ (match E.store id with
+      | .failure => True
+      | .missing => False
+      | .chunk c => (c.getData E.z.dec).1 = none) :=
+  PS.storeFails_iff E id
+
+/-- the session is closed: the bytes the server read are exactly the bytes the client wrote (its
+    hello, one request per id whatever the replies were, its goodbye), both handshakes succeed, and
+    the server returns nil after the goodbye unless its store failed -/
+theorem session_closed (E : PS.Env) (hz : PS.ZstdOk E) (ids : List Bytes) (hid : ∀ id ∈ ids, id.length = 32) :
+    (PS.session E ids).client.hs = none ∧
+    (PS.session E ids).client.conn.sent = PS.clientMsgs ids ∧
+    ((∀ id ∈ ids, ¬ PS.StoreFails E id) → (PS.session E ids).server.end_ = .nilGoodbye) := by
+  obtain ⟨h1, _, h3, _, h5⟩ := PS.session_eq E hz ids hid
+  refine ⟨h1, h3, fun hall => ?_⟩
+  rw [h5]
+  exact PS.answers_nil E ids hall
+
+/-- the same results when the two sides take turns message by message -/
+theorem session_lockstep (E : PS.Env) (hz : PS.ZstdOk E) (ids : List Bytes) (hid : ∀ id ∈ ids, id.length = 32) :
+    (PS.session E ids).client.results = PS.lockstep E ids true :=
+  PS.session_lockstep E hz ids hid
+
+/-- **the server's output is well formed for every input**: it parses back (`ReadMessage` by
+    `ReadMessage`) into the messages written, and those are the server's hello followed by one reply per
+    request found in the input, in order, each the store's answer for the id in that request -/
+theorem server_replies_wellformed (E : PS.Env) (hsz : ∀ b, PS.Served E b → (E.z.comp b).length + 56 < 2^64)
+    (cancel wr : Option Nat) (input : Bytes) (a : Nat) :
+    PS.readAll (PS.serverRun E cancel wr input).sent.length ⟨(PS.serverRun E cancel wr input).written, a⟩
+      = (PS.serverRun E cancel wr input).sent ∧
+    ((wr = some 0 ∧ (PS.serverRun E cancel wr input).sent = []) ∨
+     ∃ rs, (PS.serverRun E cancel wr input).sent = PS.helloMsg Gen.CaProtocolReadableStore :: rs ∧
+      (rs = [] ∨ ∃ f ms tail, input = PS.wire (PS.helloMsg f :: ms) ++ tail ∧ PS.Replies E ms rs)) :=
+  ⟨PS.serverRun_parses_back E hsz cancel wr input a, PS.serverRun_sent E cancel wr input⟩
+
+/-- the server labels a chunk reply with `chunk.ID()` — the id the chunk object was constructed
+    with when that is marked calculated (`NewChunkWithID`, `NewChunkFromStorage`, verified or not),
+    the digest of its data otherwise (`NewChunk`) — not with the requested id; the data is
+    re-compressed whatever the upstream format was -/
+theorem server_reply_label (E : PS.Env) (id : Bytes) (c c1 : ChunkObj) (b : Bytes) (hs : E.store id = .chunk c)
+    (hd : c.getData E.z.dec = (some b, c1)) :
+    PS.replyOf E id = .ok (chunkMessage (PS.fit32 (if c.idCalculated then c.id else E.H b))
+      Gen.CaProtocolChunkCompressed (E.z.comp b)) :=
+  PS.replyOf_label E id c c1 b hs hd
+
+/-- what the server has written in answer to the messages it has read does not depend on what
+    follows them in the input -/
+theorem server_causal (E : PS.Env) (cancel wr w : Option Nat) (hw : PS.wrWrite wr = some w) (f : UInt64)
+    (hp : f &&& Gen.CaProtocolPullChunks ≠ 0) (ms : List Message) (hsz : ∀ m ∈ ms, 16 + m.body.length < 2^64)
+    (tail : Bytes) :
+    ∃ more, (PS.serverRun E cancel wr (PS.wire (PS.helloMsg f :: ms) ++ tail)).sent =
+      PS.helloMsg Gen.CaProtocolReadableStore :: (PS.serveMsgs E cancel w ms).1 ++ more :=
+  PS.server_causal E cancel wr w hw f hp ms hsz tail
+
+/-- `Initialize` sends and receives concurrently: both orders of the two goroutines give the same
+    connection state and the same result -/
+theorem initialize_orders_agree (flags : UInt64) (c : PS.Conn) : PS.initializeSR flags c = PS.initializeRS flags c :=
+  PS.initialize_orders_agree flags c
+
+/-! non-vacuity: a store with one chunk (`[7]`, under the id `fit32 [7]` with the digest `fit32`),
+    one failing id, everything else missing; zstd = "prefix a byte" -/
+def exEnv : PS.Env where
+  H := PS.fit32
+  z := ⟨fun x => 1 :: x, fun x => match x with | 1 :: r => some r | _ => none⟩
+  store := fun id =>
+    if id = PS.fit32 [7] then .chunk { data := [7] }
+    else if id = PS.fit32 [9] then .failure
+    else .missing
+
+theorem exEnv_ok : PS.ZstdOk exEnv :=
+  ⟨fun _ _ => rfl, fun _ _ => by simp [exEnv], fun b ⟨id, c, hs, hd⟩ => by
+    simp only [exEnv] at hs hd ⊢
+    split at hs
+    · injection hs with hs; subst hs
+      simp [ChunkObj.getData] at hd
+      subst hd; decide
+    · split at hs <;> cases hs⟩
+
+/-- a session asking for a missing chunk, the chunk, a failing id, and the chunk again: missing,
+    the bytes, and errors from the failure on -/
+example : ∃ c', (PS.session exEnv [PS.fit32 [1], PS.fit32 [7], PS.fit32 [9], PS.fit32 [7]]).client.results[1]? = some (.ok c') ∧
+      C03.delivers exEnv.z.dec c' [7] := by
+  have h := (session_faithful exEnv exEnv_ok [PS.fit32 [1], PS.fit32 [7], PS.fit32 [9], PS.fit32 [7]]
+    (by intro id hid; simp only [List.mem_cons, List.not_mem_nil, or_false] at hid; rcases hid with rfl | rfl | rfl | rfl <;> simp)).2
+    1 (PS.fit32 [7]) rfl
+  refine (h.1 ?_).2.1 { data := [7] } [7] (by simp [exEnv]) rfl (by simp [exEnv])
+  intro j idj hj hidj
+  have : j = 0 := by omega
+  subst this
+  simp only [List.getElem?_cons_zero, Option.some.injEq] at hidj
+  subst hidj
+  rw [PS.storeFails_iff]
+  have : exEnv.store (PS.fit32 [1]) = .missing := by simp [exEnv, PS.fit32]
+  rw [this]; simp
+
+example : (PS.session exEnv [PS.fit32 [1], PS.fit32 [7], PS.fit32 [9], PS.fit32 [7]]).client.results[3]?
+    = some (.fail (.read .eof)) := by
+  have h := (session_faithful exEnv exEnv_ok [PS.fit32 [1], PS.fit32 [7], PS.fit32 [9], PS.fit32 [7]]
+    (by intro id hid; simp only [List.mem_cons, List.not_mem_nil, or_false] at hid; rcases hid with rfl | rfl | rfl | rfl <;> simp)).2
+    3 (PS.fit32 [7]) rfl
+  refine h.2.1 (Or.inl fun hs => hs 2 (PS.fit32 [9]) (by omega) rfl ?_)
+  rw [PS.storeFails_iff]
+  have : exEnv.store (PS.fit32 [9]) = .failure := by simp [exEnv, PS.fit32]
+  rw [this]; trivial
 
 theorem gen_sites :
     Gen.site_const_CaProtocolMissing_found = true ∧ Gen.site_const_CaProtocolChunk_found = true ∧
